@@ -33,15 +33,19 @@ harnesses! {
 
 const CHILD_DOC: &str = "<scxml version=\"1.0\" datamodel=\"null\" initial=\"c\"><state id=\"c\"/></scxml>";
 
-pub struct Inv { pub state: u32, pub id: String, pub auto: bool }
+/// `fails`: the invoke has a namelist entry that is no valid location: it is evaluated, raises error.execution and starts nothing
+pub struct Inv { pub state: u32, pub id: String, pub auto: bool, pub fails: bool }
 
 /// one invoke per <state>/<parallel> (not the root), a second one on state 2; index = document order over the whole model
 pub fn invokes_of(sh: &Shape) -> Vec<Inv> {
     let mut v = Vec::new();
     for s in sh.order() {
         if s == 1 || sh.is_hist(s) || sh.kind[s as usize] == K_FINAL { continue; }
-        v.push(Inv { state: s, id: format!("inv{}", s), auto: s % 2 == 0 });
-        if s == 2 { v.push(Inv { state: s, id: "inv2b".to_string(), auto: false }); }
+        v.push(Inv { state: s, id: format!("inv{}", s), auto: s % 2 == 0, fails: false });
+        if s == 2 {
+            v.push(Inv { state: s, id: "inv2b".to_string(), auto: false, fails: false });
+            v.push(Inv { state: s, id: "inv2c".to_string(), auto: false, fails: true });
+        }
     }
     v
 }
@@ -51,11 +55,14 @@ fn attach_invokes(fsm: &mut Fsm, invs: &[Inv]) {
     for i in invs {
         let mut inv = Invoke::new();
         inv.doc_id = 50 + k;
-        inv.invoke_id = i.id.clone();
+        // the invoke of state 3 has no 'id' attribute: the platform generates "<state>.<n>" when it starts; the hand-registered
+        // instance of the start configuration runs under the key "inv3" all the same (any generated id would do)
+        inv.invoke_id = if i.state == 3 { String::new() } else { i.id.clone() };
         inv.parent_state_name = format!("s{}", i.state);
         inv.type_expr = Data::Source(SourceCode::new("t", (TOK_INV + k) as usize));
         inv.content = Some(CommonContent { content: Some(CHILD_DOC.to_string()), content_expr: None });
         inv.autoforward = i.auto;
+        if i.fails { inv.name_list.push("nope".to_string()); }
         inv.finalize = X_FIN + k;
         fsm.states[(i.state - 1) as usize].invoke.push(inv);
         k += 1;
@@ -134,7 +141,7 @@ fn life(shape_ix: u32) {
         gd.executor = Some(Box::new(ex.clone()));
         let mut k = 0;
         while k < ninv {
-            if conf.contains(&invs[k].state) {
+            if conf.contains(&invs[k].state) && !invs[k].fails {
                 let cg = create_global_data_arc();
                 let sender = cg.lock().unwrap().externalQueue.sender.clone();
                 let mut s = ScxmlSession::new_without_join_handle(100 + k as u32, sender);
@@ -215,7 +222,14 @@ fn life(shape_ix: u32) {
         // end of the macrostep: invoke what was entered and is still active, in entry order, invokes in document order
         for s in sh.ordered(mask_of(&to_invoke)) {
             let mut k = 0;
-            while k < ninv { if invs[k].state == s { out.log.push(TOK_INV + k as u32); sid_run[k] = first_dyn + started.len() as u32; started.push(k); } k += 1; }
+            while k < ninv {
+                if invs[k].state == s {
+                    out.log.push(TOK_INV + k as u32);
+                    // an invoke whose arguments cannot be evaluated raises error.execution and starts nothing
+                    if invs[k].fails { queue.push(9); } else { sid_run[k] = first_dyn + started.len() as u32; started.push(k); }
+                }
+                k += 1;
+            }
         }
         to_invoke.clear();
         if !queue.is_empty() { continue; }
@@ -227,6 +241,9 @@ fn life(shape_ix: u32) {
             if cand.kind == 3 { continue; }
             // ... including the done.invoke of a child that was cancelled before ("processes no event from a child after cancelling it")
             if (cand.kind == 1 || cand.kind == 2) && sid_run[cand.from] == 0 { continue; }
+            // the queued events of the id-less invoke carry the id of its hand-registered instance (session ids >= 100); an
+            // instance started later runs under a generated id, so for it these events come from an unknown session
+            if (cand.kind == 1 || cand.kind == 2) && invs[cand.from].state == 3 && sid_run[cand.from] < 100 { continue; }
             x = Ext { kind: cand.kind, from: cand.from };
             break;
         }
@@ -273,7 +290,15 @@ fn life(shape_ix: u32) {
     // (3) the session table: exactly the running children are registered, under their invoke ids
     let mut ok_tab = true; let mut nreg = 0;
     let mut k = 0;
-    while k < ninv { if still[k] != gd.child_sessions.contains_key(&invs[k].id) { ok_tab = false; } if still[k] { nreg += 1; } k += 1; }
+    while k < ninv {
+        // an instance started by the platform for the id-less invoke of state 3 is registered under a generated id "s3.<n>"
+        let generated = invs[k].state == 3 && started.contains(&k);
+        let mut present = gd.child_sessions.contains_key(&invs[k].id);
+        if generated { present = false; for key in gd.child_sessions.keys() { if key.starts_with("s3.") { present = true; } } }
+        if still[k] != present { ok_tab = false; }
+        if still[k] { nreg += 1; }
+        k += 1;
+    }
     vnd_check(1403, ok_tab && gd.child_sessions.len() == nreg);
     // (4) autoforward: the hand-registered children received exactly the forwarded events, in order
     let mut ok_fwd = true;
